@@ -156,7 +156,7 @@ def r3(ctx, prog):
     ok = ok and not f.cfg.exists_path(q.pt(f, first_deleg), q.pt(f, lookup[0]), avoid=q.pts(f, tests))
     ctx.ob('C16.R3', '%s|own-routes-after-termination' % f.name, ok, 'after delegating, run() returns unless the sub-machine isTerminated()', where=f.loc(first_deleg['i']))
     g = [(c, k) for c, k, b in f.cfg.controlling_branches(q.pt(f, scan[0])) if 'next_state_id' in q.subtree_paths(f, c)]
-    okg = any(f.s(f.strip_casts(c)).get('op') == '==' and k == 0 for c, k in g)
+    okg = any(q.edge_says(f, c, k, lambda l: l == 'next_state_id', ('==',), lambda r: True) for c, k in g)
     ctx.ob('C16.R3', '%s|handler-before-routes' % f.name, okg and f.cfg.exists_path(q.pt(f, lookup[0]), q.pt(f, scan[0])) and not f.cfg.exists_path(q.pt(f, scan[0]), q.pt(f, lookup[0])),
            'the route scan runs only when the handler produced no target state', where=f.loc(scan[0]['i']))
     muts = []
